@@ -31,6 +31,20 @@ def output_ctor(fn, call):
     return None
 
 
+def gate_vars(cx, fn):
+    """(name of the gated-data variable, name of the mask variable), read off the full-output return."""
+    gd = mk = None
+    for r in fn.stmts(ast.Return):
+        if isinstance(r.value, ast.Call) and output_ctor(fn, r.value) is not None:
+            fields = output_ctor(fn, r.value)
+            g = kwarg(r.value, 'gated_data', fields.index('gated_data'))
+            m = kwarg(r.value, 'mask', fields.index('mask'))
+            if isinstance(g, ast.Name) and isinstance(m, ast.Name):
+                gd, mk = g.id, m.id
+    cx.need(gd and mk, '%s: full-output return does not name its gated data and mask' % fn.qual)
+    return gd, mk
+
+
 def gateshape(cx, fn):
     data = fn.params[0]
     returns = fn.stmts(ast.Return)
@@ -135,9 +149,10 @@ def guard_len2(cx, fn, use_pred):
 def start_end(cx):
     fn = Fn(cx, 'gate.start_end')
     data = fn.params[0]
+    GD, MK = gate_vars(cx, fn)
     # refusal: more events to drop than exist
     gs = guards(fn, mentions=lambda t: {'num_start', 'num_end'} <= names_in(t), exc=['ValueError'])
-    mask_defs = [n for n in fn.cfg.nodes if 'mask' in fn.rd.gen[n.id]]
+    mask_defs = [n for n in fn.cfg.nodes if MK in fn.rd.gen[n.id]]
     cx.need(len(mask_defs) >= 1, 'gate.start_end: no definition of the mask')
     ok = bool(gs) and all(guard_dominates(fn, g, p, d.ast) for g, p in gs[:1] for d in mask_defs)
     if gs:
@@ -166,7 +181,7 @@ def start_end(cx):
               detail='' if clamp else 'no `if %s < 0: %s = 0` before the mask' % (p, p), key='clamp-' + p)
     # mask: all True of length N, then exactly two clearing stores
     d0 = mask_defs[0]
-    v = fn.rd.assigned_value(d0, 'mask')
+    v = fn.rd.assigned_value(d0, MK)
     cx.need(len(mask_defs) == 1 and v is not None, 'gate.start_end: mask has %d definitions' % len(mask_defs))
     got = sym.norm(v)
     N = '%s.shape[0]' % data
@@ -175,7 +190,7 @@ def start_end(cx):
         'np.full(%(N)s, True)', 'np.ones(shape=(%(N)s,), dtype=bool)', 'np.ones(len(' + data + '), dtype=bool)')]
     fn.ob('GATEPRED', 'mask starts as all-True with one entry per event', got in accepted, v,
           detail='' if got in accepted else 'mask initialised as %s' % sym.show(got), key='mask-init')
-    stores = [n for n in fn.cfg.nodes if 'mask' in fn.rd.mods[n.id]]
+    stores = [n for n in fn.cfg.nodes if MK in fn.rd.mods[n.id]]
     seen = {}
     for s in stores:
         st = s.ast
@@ -208,7 +223,7 @@ def start_end(cx):
     fn.ob('GATEPRED', 'both ends of the window are cleared once', ok, fn.ast,
           detail='' if ok else 'mask stores found: %s' % seen, key='mask-store-count')
     # stores happen before the data is indexed
-    for r, v2 in [(d, fn.rd.assigned_value(d, 'gated_data')) for d in fn.cfg.nodes if 'gated_data' in fn.rd.gen[d.id]]:
+    for r, v2 in [(d, fn.rd.assigned_value(d, GD)) for d in fn.cfg.nodes if GD in fn.rd.gen[d.id]]:
         for s in stores:
             ok = not fn.cfg.reaches_avoiding(r, s, [])
             fn.ob('GATEPRED', 'mask is complete before it indexes the data', ok, s.ast,
@@ -220,9 +235,10 @@ def start_end(cx):
 def high_low(cx):
     fn = Fn(cx, 'gate.high_low')
     data = fn.params[0]
-    mdefs = [n for n in fn.cfg.nodes if 'mask' in fn.rd.gen[n.id]]
+    GD, MK = gate_vars(cx, fn)
+    mdefs = [n for n in fn.cfg.nodes if MK in fn.rd.gen[n.id]]
     cx.need(len(mdefs) == 1, 'gate.high_low: mask has %d definitions' % len(mdefs))
-    mv = fn.rd.assigned_value(mdefs[0], 'mask')
+    mv = fn.rd.assigned_value(mdefs[0], MK)
     cx.need(mv is not None, 'gate.high_low: mask is not a plain assignment')
     # the gated-channel view X: defined as data (channels None) or data[:, channels] (+reshape for 1-D)
     got = sym.norm(mv)
@@ -304,9 +320,10 @@ def ellipse(cx):
     fn = Fn(cx, 'gate.ellipse')
     data = fn.params[0]
     guard_len2(cx, fn, None)
-    mdefs = [n for n in fn.cfg.nodes if 'mask' in fn.rd.gen[n.id]]
+    GD, MK = gate_vars(cx, fn)
+    mdefs = [n for n in fn.cfg.nodes if MK in fn.rd.gen[n.id]]
     cx.need(len(mdefs) == 1, 'gate.ellipse: mask has %d definitions' % len(mdefs))
-    mv = fn.rd.assigned_value(mdefs[0], 'mask')
+    mv = fn.rd.assigned_value(mdefs[0], MK)
     # the channel data variable has two definitions (plain and log10 under `if log`): find it
     X = None
     for n in fn.cfg.nodes:
